@@ -125,6 +125,46 @@ def collection_copy_check(ctx, rng):
                 break
 
 
+def collection_sum_check(ctx, rng):
+    """HistogramCollection.sum() is arithmetic like any other: the result is a histogram of its own, for 0, 1, 2 or 3 members."""
+    import physt
+    from physt.histogram_collection import HistogramCollection
+    from .. import gen
+
+    rec = ctx.rec
+    rec.mon("C12.world.independence")
+    e = gen.edges(rng, rng.randint(1, 6))
+    pairs = gen.pairs_from_edges(e)
+    k = rng.choice([1, 1, 1, 2, 3])
+    hs = [physt.h1(np.asarray(gen.data_for_bins(rng, pairs, rng.randint(1, 15))), np.array(e), name=f"m{i}") for i in range(k)]
+    col = HistogramCollection(*hs)
+    try:
+        total = col.sum()
+    except Exception as ex:
+        rec.fail(monitor="C12.world.independence", op="HistogramCollection.sum", symptom=f"sum of a collection raised {type(ex).__name__}", diff=["raised"], detail={"members": k})
+        return
+    with attach.quiet():
+        before = [snap.snapshot(x) for x in col.histograms]
+    if any(total is x for x in col.histograms):
+        rec.fail(monitor="C12.world.independence", op="HistogramCollection.sum", symptom="the sum of a collection is one of its members (not a histogram of its own)", diff=["identity"], detail={"members": k})
+    how = rng.randrange(3)
+    try:
+        if how == 0:
+            total.fill_n(np.asarray(gen.data_for_bins(rng, pairs, 4), dtype=float))
+        elif how == 1:
+            total *= 3
+        else:
+            total.name = "all"
+            total.meta_data["k"] = [1]
+    except Exception:
+        return
+    with attach.quiet():
+        for x, b in zip(col.histograms, before):
+            d = snap.diff(b, snap.snapshot(x))
+            if d:
+                rec.fail(monitor="C12.world.independence", op="HistogramCollection.sum", symptom="changing the sum of a collection changed a member", diff=sorted(d), detail={"members": k})
+
+
 def options_check(ctx, rng):
     """Sources built with non-default options (keep_missed off, explicit dtype, ND): whatever is derived from them owns all of
     its state - also the counters of missed weight, which additions update even when the tracking flag is off."""
@@ -195,6 +235,7 @@ def one_history(ctx, index: int, rng: random.Random):
         copy_checks(ctx, rng, world)
     if rng.random() < 0.15:
         collection_copy_check(ctx, rng)
+        collection_sum_check(ctx, rng)
     if rng.random() < 0.4:
         options_check(ctx, rng)
     st = h.stats
